@@ -126,7 +126,7 @@ LEVEL_TEXT["C16"] = _lt("proof",
     "trusted: Lean kernel; translator for Nomenclature/Get (validated by the obj stream); Spec group tables", _TECH)
 LEVEL_TEXT["C18"] = _lt("proof",
     "Theorems C18.v30/v31/v40: for every grammatical vector, every defect of Spec/Errors.lean (bad/missing header, illegal value, removed mandatory metric, repeated, unknown, "
-    "swapped, truncated) at every position, the parser model returns exactly the documented error value incl. the Abv payload; getset_errors*: unknown abbreviation / "
+    "swapped, moved to any other position, truncated) at every position, the parser model returns exactly the documented error value incl. the Abv payload; header30/31/40(_iff): for EVERY byte string the error is ErrInvalidCVSSHeader iff the version prefix is missing; getset_errors*: unknown abbreviation / "
     "illegal value for Get/Set. v2.0: the full statement is FALSE on the unchanged code (known finding F3, negation proved in Findings/C18v2.lean and reproduced on the real "
     "code); v20_partial proves every case except an insertion after a complete environmental group, and v2_errors_afterEnv characterises the finding exactly.",
     _PARSER_NOTE, _TECH)
